@@ -6,6 +6,7 @@ import (
 	"bytes"
 	"encoding/binary"
 	"fmt"
+	"math/big"
 	"reflect"
 	"testing"
 	"unsafe"
@@ -208,6 +209,16 @@ func evalC15(c c15Case, o *Obs) error {
 		case "newext":
 			a := pick(op.A)
 			src := pool[a].r
+			if len(op.Seed) == 32 && src.Priv != nil {
+				// the copy gets another private scalar (one with extreme machine words): same chain code, own key
+				if k := new(big.Int).SetBytes(op.Seed); k.Sign() > 0 && k.Cmp(curveN) < 0 {
+					cp := *src
+					cp.Priv = k
+					cp.X, cp.Y = pubPoint(op.Seed)
+					src = &cp
+					o.Class("C15:newext-with-a-crafted-scalar")
+				}
+			}
 			var keyData []byte
 			if src.Priv != nil {
 				keyData = pad32(src.Priv)
@@ -441,6 +452,9 @@ func genC15(t *rapid.T) c15Case {
 			op.Op = "fromstring"
 		case 3:
 			op.Op, op.I, op.Net = "newext", uint32(rapid.IntRange(0, 3).Draw(t, "newextflags")), genNet(t)
+			if rapid.IntRange(0, 2).Draw(t, "crafted") == 0 {
+				op.Seed = genScalar(t, "craftedk")
+			}
 		case 4, 5, 6:
 			op.Op, op.I = "child", genIndex(t)
 		case 7, 8, 9, 10:
